@@ -1,28 +1,47 @@
 import StepModel.GenCxxPass
-/-! Invariants of the pass decision under the original last case of `ENUMcanBeProcessed`:
-    nothing is ever marked CANTPROCESS, and `unknowncnt` accounts for every object a sweep leaves NOTKNOWN. -/
+/-! Invariants of the pass decision under the original last case of `ENUMcanBeProcessed`, for a schema all of whose
+    foreign objects (reached through USE/REFERENCE) have already been PROCESSED:
+    nothing is ever marked CANTPROCESS, and `unknowncnt` is exactly the number of objects a sweep leaves NOTKNOWN. -/
 namespace StepModel.GenFiles.Pass
 open StepModel.Generated.CxxPass
 
 def NoCant (m : Marks) : Prop := ∀ k, m k ≠ .cantprocess
+
+/-- every object of another schema the schema refers to has been PROCESSED -/
+def FDone (os : List Obj) (m : Marks) : Prop := ∀ n, isForeign os n = true → m n = .processed
 
 theorem noCant_set (m : Marks) (n : String) (v : Mark) (h : NoCant m) (hv : v ≠ .cantprocess) : NoCant (setMark m n v) := by
   intro k; unfold setMark; split
   · exact hv
   · exact h k
 
-theorem enumCan_of_noCant (os : List Obj) (m : Marks) (e : String) (h : NoCant m) :
+theorem setMark_self (m : Marks) (n : String) (v : Mark) : setMark m n v n = v := by simp [setMark]
+theorem setMark_other (m : Marks) (n k : String) (v : Mark) (h : k ≠ n) : setMark m n v k = m k := by simp [setMark, h]
+
+theorem fdone_of_others (os : List Obj) (m m' : Marks) (p : String) (hp : isForeign os p = false)
+    (ho : ∀ k, k ≠ p → m' k = m k) (h : FDone os m) : FDone os m' := by
+  intro n hn
+  have : n ≠ p := fun e => by rw [e, hp] at hn; exact absurd hn (by decide)
+  rw [ho n this]; exact h n hn
+
+theorem isForeign_of_lookup (os : List Obj) (n : String) (o : Obj) (h : lookup os n = some o) : isForeign os n = o.foreign := by
+  simp [isForeign, h]
+
+theorem enumCan_of_noCant (os : List Obj) (m : Marks) (e : String) (h : NoCant m) (hf : FDone os m) :
     enumCanBeProcessed .inSchemaOrProcessed os m e = true := by
   unfold enumCanBeProcessed
-  cases hm : m e with
-  | notknown =>
-    simp only
-    cases (lookup os e).bind (·.renameOf) with
-    | none => rfl
-    | some a => rfl
-  | canprocess => rfl
-  | processed => rfl
-  | cantprocess => exact absurd hm (h e)
+  by_cases hfo : isForeign os e = true
+  · rw [if_pos hfo, hf e hfo]; rfl
+  · rw [if_neg hfo]
+    cases hm : m e with
+    | notknown =>
+      simp only
+      cases (lookup os e).bind (·.renameOf) with
+      | none => rfl
+      | some a => rfl
+    | canprocess => rfl
+    | processed => rfl
+    | cantprocess => exact absurd hm (h e)
 
 def Good (s : St) : Prop := NoCant s.marks ∧ s.schemaUnprocessed = false
 
@@ -47,58 +66,66 @@ theorem Rel.trans {parent : String} {a b c : St} (h1 : Rel parent a b) (h2 : Rel
     · exact Or.inr ⟨n1, by rw [m2, m1], by rw [u2, u1]⟩
     · exact absurd m1 n2
 
-theorem Rel.mono {parent : String} {a b : St} (h : Rel parent a b) : a.unknown ≤ b.unknown := by
-  rcases h.exact with ⟨_, u⟩ | ⟨_, _, u⟩ <;> omega
-
-theorem setMark_self (m : Marks) (n : String) (v : Mark) : setMark m n v n = v := by simp [setMark]
-theorem setMark_other (m : Marks) (n k : String) (v : Mark) (h : k ≠ n) : setMark m n v k = m k := by simp [setMark, h]
-
-theorem checkItem_rel (os : List Obj) (s : St) (parent item : String) (noSel : Bool) (h : Good s) :
+theorem checkItem_rel (os : List Obj) (s : St) (parent item : String) (noSel : Bool) (h : Good s) (hf : FDone os s.marks) :
     Rel parent s (checkItem .inSchemaOrProcessed os s parent item noSel).1 ∧
     (checkItem .inSchemaOrProcessed os s parent item noSel).2 = false := by
   unfold checkItem
-  cases lookup os item with
+  cases hl : lookup os item with
   | none => exact ⟨Rel.refl _ _ h, rfl⟩
   | some o =>
     simp only
     by_cases he : o.isEnum = true
-    · simp only [he, if_true, enumCan_of_noCant os s.marks item h.1, Bool.not_true, Bool.false_eq_true, if_false]
+    · simp only [he, if_true, enumCan_of_noCant os s.marks item h.1 hf, Bool.not_true, Bool.false_eq_true, if_false]
       exact ⟨Rel.refl _ _ h, trivial⟩
     · simp only [he, Bool.false_eq_true, if_false]
       by_cases hs : (o.isSelect && !noSel) = true
       · simp only [hs, if_true]
-        cases hm : s.marks item with
-        | cantprocess => exact absurd hm (h.1 item)
-        | notknown =>
-          simp only
-          by_cases hp : s.marks parent = .notknown
-          · simp only [hp, ne_eq, not_true_eq_false, if_false]
-            exact ⟨Rel.refl _ _ h, trivial⟩
-          · simp only [hp, ne_eq, not_false_eq_true, if_true]
-            exact ⟨⟨⟨noCant_set _ _ _ h.1 (by decide), h.2⟩, fun k hk => setMark_other _ _ _ _ hk,
-              Or.inr ⟨hp, setMark_self _ _ _, rfl⟩⟩, trivial⟩
-        | canprocess => exact ⟨Rel.refl _ _ h, rfl⟩
-        | processed => exact ⟨Rel.refl _ _ h, rfl⟩
+        by_cases hfo : o.foreign = true
+        · have hp : s.marks item = .processed := hf item (by rw [isForeign_of_lookup os item o hl]; exact hfo)
+          simp only [hfo, if_true, hp, ne_eq, not_true_eq_false, if_false]
+          exact ⟨Rel.refl _ _ h, trivial⟩
+        · simp only [hfo, Bool.false_eq_true, if_false]
+          cases hm : s.marks item with
+          | cantprocess => exact absurd hm (h.1 item)
+          | notknown =>
+            simp only
+            by_cases hp : s.marks parent = .notknown
+            · simp only [hp, ne_eq, not_true_eq_false, if_false]
+              exact ⟨Rel.refl _ _ h, trivial⟩
+            · simp only [hp, ne_eq, not_false_eq_true, if_true]
+              exact ⟨⟨⟨noCant_set _ _ _ h.1 (by decide), h.2⟩, fun k hk => setMark_other _ _ _ _ hk,
+                Or.inr ⟨hp, setMark_self _ _ _, rfl⟩⟩, trivial⟩
+          | canprocess => exact ⟨Rel.refl _ _ h, rfl⟩
+          | processed => exact ⟨Rel.refl _ _ h, rfl⟩
       · simp only [hs, Bool.false_eq_true, if_false]
         exact ⟨Rel.refl _ _ h, trivial⟩
 
-theorem checkItems_rel (os : List Obj) (parent : String) (noSel : Bool) (items : List String) (s : St) (h : Good s) :
+theorem checkItems_rel (os : List Obj) (parent : String) (hp : isForeign os parent = false) (noSel : Bool) (items : List String)
+    (s : St) (h : Good s) (hf : FDone os s.marks) :
     Rel parent s (checkItems .inSchemaOrProcessed os parent noSel s items).1 ∧
     (checkItems .inSchemaOrProcessed os parent noSel s items).2 = false := by
   induction items generalizing s with
   | nil => exact ⟨Rel.refl _ _ h, rfl⟩
   | cons i is ih =>
-    have hc := checkItem_rel os s parent i noSel h
+    have hc := checkItem_rel os s parent i noSel h hf
     simp only [checkItems]
     rw [show (checkItem .inSchemaOrProcessed os s parent i noSel) =
       ((checkItem .inSchemaOrProcessed os s parent i noSel).1, (checkItem .inSchemaOrProcessed os s parent i noSel).2) from rfl]
     simp only [hc.2, Bool.false_eq_true, if_false]
-    have := ih _ hc.1.good
+    have := ih _ hc.1.good (fdone_of_others os _ _ parent hp hc.1.others hf)
     exact ⟨hc.1.trans this.1, this.2⟩
+
+theorem foreignBlocked_false (os : List Obj) (m : Marks) (o : Obj) (hf : FDone os m) : foreignBlocked os m o = false := by
+  unfold foreignBlocked
+  rw [List.any_eq_false]
+  intro n _
+  by_cases hfo : isForeign os n = true
+  · rw [hf n hfo]; simp
+  · simp [hfo]
 
 /-- one visit: a Good state stays Good, only the visited object's mark changes; an object that was not NOTKNOWN is skipped;
     one that was ends CANPROCESS (count unchanged) or NOTKNOWN (count + 1) -/
-theorem visit_rel (os : List Obj) (s : St) (o : Obj) (h : Good s) :
+theorem visit_rel (os : List Obj) (s : St) (o : Obj) (h : Good s) (hf : FDone os s.marks) (hp : isForeign os o.name = false) :
     Good (visit .inSchemaOrProcessed os s o) ∧
     (∀ k, k ≠ o.name → (visit .inSchemaOrProcessed os s o).marks k = s.marks k) ∧
     (s.marks o.name ≠ .notknown → visit .inSchemaOrProcessed os s o = s) ∧
@@ -111,15 +138,18 @@ theorem visit_rel (os : List Obj) (s : St) (o : Obj) (h : Good s) :
     exact ⟨h, fun _ _ => rfl, fun _ => rfl, fun hk => absurd hk hn⟩
   · have h1 : Good { s with marks := setMark s.marks o.name .canprocess } :=
       ⟨noCant_set _ _ _ h.1 (by decide), h.2⟩
-    have h2 := checkItems_rel os o.name false o.items _ h1
-    have h3 := checkItems_rel os o.name true o.entAttrTypes _ h2.1.good
+    have hf1 : FDone os ({ s with marks := setMark s.marks o.name .canprocess } : St).marks :=
+      fdone_of_others os s.marks _ o.name hp (fun k hk => setMark_other _ _ _ _ hk) hf
+    have h2 := checkItems_rel os o.name hp false o.items _ h1 hf1
+    have hf2 := fdone_of_others os _ _ o.name hp h2.1.others hf1
+    have h3 := checkItems_rel os o.name hp true o.entAttrTypes _ h2.1.good hf2
     have e : visit .inSchemaOrProcessed os s o =
         (checkItems .inSchemaOrProcessed os o.name true
           (checkItems .inSchemaOrProcessed os o.name false { s with marks := setMark s.marks o.name .canprocess } o.items).1
           o.entAttrTypes).1 := by
       unfold visit
-      rw [if_neg hn]
-      simp only [h2.2, Bool.false_eq_true, if_false]
+      rw [if_neg hn, foreignBlocked_false os s.marks o hf]
+      simp only [Bool.false_eq_true, if_false, h2.2]
     rw [e]
     have r := h2.1.trans h3.1
     have hc : ({ s with marks := setMark s.marks o.name .canprocess } : St).marks o.name = .canprocess := setMark_self _ _ _
@@ -129,39 +159,36 @@ theorem visit_rel (os : List Obj) (s : St) (o : Obj) (h : Good s) :
     · exact Or.inl ⟨by rw [m, hc], u⟩
     · exact Or.inr ⟨m, u⟩
 
-theorem visit_good (os : List Obj) (s : St) (o : Obj) (h : Good s) : Good (visit .inSchemaOrProcessed os s o) :=
-  (visit_rel os s o h).1
+theorem visit_fdone (os : List Obj) (s : St) (o : Obj) (h : Good s) (hf : FDone os s.marks) (hp : isForeign os o.name = false) :
+    FDone os (visit .inSchemaOrProcessed os s o).marks :=
+  fdone_of_others os s.marks _ o.name hp (visit_rel os s o h hf hp).2.1 hf
 
 /-- number of objects of `l` that are NOTKNOWN under `m` -/
 def cnt (l : List Obj) (m : Marks) : Nat := l.countP (fun o => decide (m o.name = .notknown))
 
-theorem cnt_congr (l : List Obj) (m m' : Marks) (h : ∀ o ∈ l, m' o.name = m o.name) : cnt l m' = cnt l m := by
-  unfold cnt
-  apply List.countP_congr
-  intro o ho
-  rw [h o ho]
-
-/-- a sweep over objects with pairwise different names, exactly: `unknowncnt` grows by the number of visited objects that
-    are NOTKNOWN afterwards, objects outside the sweep keep their marks, and no object becomes NOTKNOWN that was not -/
-theorem sweep_exact (os : List Obj) (order : List Obj) (hnd : (order.map (·.name)).Nodup) (s : St) (h : Good s) :
-    Good (sweep .inSchemaOrProcessed os order s) ∧
+/-- a sweep over the schema's own objects (pairwise different names), exactly: `unknowncnt` grows by the number of visited
+    objects that are NOTKNOWN afterwards, objects outside the sweep keep their marks, and no object becomes NOTKNOWN that was not -/
+theorem sweep_exact (os : List Obj) (order : List Obj) (hnd : (order.map (·.name)).Nodup)
+    (hown : ∀ o ∈ order, isForeign os o.name = false) (s : St) (h : Good s) (hf : FDone os s.marks) :
+    Good (sweep .inSchemaOrProcessed os order s) ∧ FDone os (sweep .inSchemaOrProcessed os order s).marks ∧
     (sweep .inSchemaOrProcessed os order s).unknown = s.unknown + cnt order (sweep .inSchemaOrProcessed os order s).marks ∧
     (∀ k, (∀ o ∈ order, o.name ≠ k) → (sweep .inSchemaOrProcessed os order s).marks k = s.marks k) ∧
     (∀ o ∈ order, (sweep .inSchemaOrProcessed os order s).marks o.name = .notknown → s.marks o.name = .notknown) := by
   unfold sweep
   induction order generalizing s with
-  | nil => exact ⟨h, by simp [cnt], fun _ _ => rfl, fun o ho => absurd ho List.not_mem_nil⟩
+  | nil => exact ⟨h, hf, by simp [cnt], fun _ _ => rfl, fun o ho => absurd ho List.not_mem_nil⟩
   | cons o rest ih =>
     simp only [List.map_cons, List.nodup_cons] at hnd
-    have v := visit_rel os s o h
-    have r := ih hnd.2 (visit .inSchemaOrProcessed os s o) v.1
+    have hpo := hown o List.mem_cons_self
+    have v := visit_rel os s o h hf hpo
+    have vf := visit_fdone os s o h hf hpo
+    have r := ih hnd.2 (fun o' ho' => hown o' (List.mem_cons_of_mem _ ho')) (visit .inSchemaOrProcessed os s o) v.1 vf
     simp only [List.foldl_cons]
     have hfresh : ∀ o' ∈ rest, o'.name ≠ o.name := fun o' ho' e => hnd.1 (List.mem_map.mpr ⟨o', ho', e⟩)
-    -- the mark of `o` after the whole sweep is its mark after its own visit
     have hkeep : (List.foldl (visit .inSchemaOrProcessed os) (visit .inSchemaOrProcessed os s o) rest).marks o.name =
-        (visit .inSchemaOrProcessed os s o).marks o.name := r.2.2.1 o.name hfresh
-    refine ⟨r.1, ?_, ?_, ?_⟩
-    · rw [r.2.1]
+        (visit .inSchemaOrProcessed os s o).marks o.name := r.2.2.2.1 o.name hfresh
+    refine ⟨r.1, r.2.1, ?_, ?_, ?_⟩
+    · rw [r.2.2.1]
       have hc : cnt (o :: rest) (List.foldl (visit .inSchemaOrProcessed os) (visit .inSchemaOrProcessed os s o) rest).marks =
           cnt rest (List.foldl (visit .inSchemaOrProcessed os) (visit .inSchemaOrProcessed os s o) rest).marks +
           (if (visit .inSchemaOrProcessed os s o).marks o.name = .notknown then 1 else 0) := by
@@ -177,7 +204,7 @@ theorem sweep_exact (os : List Obj) (order : List Obj) (hnd : (order.map (·.nam
         rw [e]
         simp [hm]
     · intro k hk
-      rw [r.2.2.1 k (fun o' ho' => hk o' (List.mem_cons_of_mem _ ho'))]
+      rw [r.2.2.2.1 k (fun o' ho' => hk o' (List.mem_cons_of_mem _ ho'))]
       exact v.2.1 k (fun e => hk o List.mem_cons_self e.symm)
     · intro o' ho' hm
       rcases List.mem_cons.mp ho' with rfl | ho'
@@ -186,46 +213,54 @@ theorem sweep_exact (os : List Obj) (order : List Obj) (hnd : (order.map (·.nam
         · exact hs
         · rw [v.2.2.1 hs] at hm
           exact absurd hm hs
-      · have := r.2.2.2 o' ho' hm
+      · have := r.2.2.2.2 o' ho' hm
         rw [v.2.1 o'.name (hfresh o' ho')] at this
         exact this
 
-theorem sweep_good (os order : List Obj) (s : St) (h : Good s) : Good (sweep .inSchemaOrProcessed os order s) := by
+theorem sweep_good (os order : List Obj) (hown : ∀ o ∈ order, isForeign os o.name = false) (s : St) (h : Good s) (hf : FDone os s.marks) :
+    Good (sweep .inSchemaOrProcessed os order s) ∧ FDone os (sweep .inSchemaOrProcessed os order s).marks := by
   unfold sweep
   induction order generalizing s with
-  | nil => exact h
-  | cons o rest ih => exact ih _ (visit_good os s o h)
+  | nil => exact ⟨h, hf⟩
+  | cons o rest ih =>
+    have hpo := hown o List.mem_cons_self
+    exact ih (fun o' ho' => hown o' (List.mem_cons_of_mem _ ho')) _ (visit_rel os s o h hf hpo).1 (visit_fdone os s o h hf hpo)
 
-theorem sweeps_good (os order : List Obj) (n : Nat) (s : St) (h : Good s) : Good (sweeps .inSchemaOrProcessed os order n s) := by
+theorem sweeps_good (os order : List Obj) (hown : ∀ o ∈ order, isForeign os o.name = false) (n : Nat) (s : St) (h : Good s) (hf : FDone os s.marks) :
+    Good (sweeps .inSchemaOrProcessed os order n s) := by
   induction n generalizing s with
   | zero => exact h
-  | succ n ih => exact ih _ (sweep_good os order s h)
+  | succ n ih =>
+    have := sweep_good os order hown s h hf
+    exact ih _ this.1 this.2
 
 theorem resetUnknown_good (s : St) (h : Good s) : Good (resetUnknown s) := ⟨h.1, h.2⟩
 
 /-- a sweep started with `unknowncnt = 0`: afterwards `unknowncnt` IS the number of NOTKNOWN objects, and no object
     is NOTKNOWN that was not before -/
-theorem sweep_from_zero (os order : List Obj) (hnd : (order.map (·.name)).Nodup) (s : St) (h : Good s) :
-    Good (sweep .inSchemaOrProcessed os order (resetUnknown s)) ∧
+theorem sweep_from_zero (os order : List Obj) (hnd : (order.map (·.name)).Nodup) (hown : ∀ o ∈ order, isForeign os o.name = false)
+    (s : St) (h : Good s) (hf : FDone os s.marks) :
+    Good (sweep .inSchemaOrProcessed os order (resetUnknown s)) ∧ FDone os (sweep .inSchemaOrProcessed os order (resetUnknown s)).marks ∧
     (sweep .inSchemaOrProcessed os order (resetUnknown s)).unknown = cnt order (sweep .inSchemaOrProcessed os order (resetUnknown s)).marks ∧
     (∀ o ∈ order, (sweep .inSchemaOrProcessed os order (resetUnknown s)).marks o.name = .notknown → s.marks o.name = .notknown) := by
-  have r := sweep_exact os order hnd (resetUnknown s) (resetUnknown_good s h)
-  refine ⟨r.1, ?_, r.2.2.2⟩
-  have := r.2.1
+  have r := sweep_exact os order hnd hown (resetUnknown s) (resetUnknown_good s h) hf
+  refine ⟨r.1, r.2.1, ?_, r.2.2.2.2⟩
+  have := r.2.2.1
   have z : (resetUnknown s).unknown = 0 := rfl
   rw [z] at this
   omega
 
 /-- a sweep started with `unknowncnt = 0` that ends with `unknowncnt ≤ 0` leaves no object of the sweep order NOTKNOWN -/
-theorem settled_of_unknown_zero (os order : List Obj) (hnd : (order.map (·.name)).Nodup) (s : St) (h : Good s)
+theorem settled_of_unknown_zero (os order : List Obj) (hnd : (order.map (·.name)).Nodup) (hown : ∀ o ∈ order, isForeign os o.name = false)
+    (s : St) (h : Good s) (hf : FDone os s.marks)
     (h0 : (sweep .inSchemaOrProcessed os order (resetUnknown s)).unknown ≤ 0) :
     Settled order (sweep .inSchemaOrProcessed os order (resetUnknown s)) := by
-  have r := sweep_from_zero os order hnd s h
+  have r := sweep_from_zero os order hnd hown s h hf
   intro o ho hm
   have hpos : 0 < cnt order (sweep .inSchemaOrProcessed os order (resetUnknown s)).marks := by
     unfold cnt
     exact List.countP_pos_iff.mpr ⟨o, ho, by simp [hm]⟩
-  have := r.2.1
+  have := r.2.2.1
   omega
 
 theorem markRemaining_good (order : List Obj) (s : St) (h : Good s) : Good (markRemaining order s) := by
@@ -235,6 +270,15 @@ theorem markRemaining_good (order : List Obj) (s : St) (h : Good s) : Good (mark
   split
   · decide
   · exact h.1 k
+
+theorem markRemaining_fdone (os order : List Obj) (s : St) (hf : FDone os s.marks) : FDone os (markRemaining order s).marks := by
+  intro n hn
+  simp only [markRemaining]
+  split
+  · rename_i hc
+    rw [hf n hn] at hc
+    exact absurd hc.1 (by decide)
+  · exact hf n hn
 
 theorem markRemaining_settled (order : List Obj) (s : St) : Settled order (markRemaining order s) := by
   intro o ho
@@ -268,94 +312,106 @@ theorem iterate_nostall (lc : EnumLastCase) (os order : List Obj) (ls : LoopSt) 
         exited := decide ((sweep lc os order (resetUnknown ls.st)).unknown ≤ 0) } := by
   unfold iterate; rw [if_neg (by rw [h]; decide)]; simp only; rw [if_neg hc]
 
+/-- the hypotheses on a schema and the state its loop starts in: own objects have pairwise different names and none of
+    them is foreign; no mark is CANTPROCESS; every foreign object has been PROCESSED -/
+structure Ready (os order : List Obj) (s0 : St) : Prop where
+  nodup : (order.map (·.name)).Nodup
+  own : ∀ o ∈ order, isForeign os o.name = false
+  good : Good s0
+  fdone : FDone os s0.marks
+
 /-- invariant of the loop (original last case of `ENUMcanBeProcessed`, loop shapes without a sweep bound): the state is
-    Good, and once the loop has been left everything is settled -/
-theorem run_inv (l : SweepLoop) (hl : l = .untilSettled ∨ l = .untilSettledOrStalled) (os order : List Obj)
-    (hnd : (order.map (·.name)).Nodup) (k : Nat) :
-    Good (run l .inSchemaOrProcessed os order k).st ∧
-    ((run l .inSchemaOrProcessed os order k).exited = true → Settled order (run l .inSchemaOrProcessed os order k).st) := by
+    Good, foreign objects stay PROCESSED, and once the loop has been left everything is settled -/
+theorem run_inv (l : SweepLoop) (hl : l = .untilSettled ∨ l = .untilSettledOrStalled) (os order : List Obj) (s0 : St)
+    (hr : Ready os order s0) (k : Nat) :
+    Good (runFrom l .inSchemaOrProcessed os order s0 k).st ∧ FDone os (runFrom l .inSchemaOrProcessed os order s0 k).st.marks ∧
+    ((runFrom l .inSchemaOrProcessed os order s0 k).exited = true → Settled order (runFrom l .inSchemaOrProcessed os order s0 k).st) := by
   induction k with
-  | zero => exact ⟨⟨fun k => by simp [run, initial], rfl⟩, fun h => by simp [run] at h⟩
+  | zero => exact ⟨hr.good, hr.fdone, fun h => by simp [runFrom] at h⟩
   | succ k ih =>
-    have erun : run l .inSchemaOrProcessed os order (k + 1) =
-        iterate l .inSchemaOrProcessed os order (run l .inSchemaOrProcessed os order k) (k + 1) := rfl
+    have erun : runFrom l .inSchemaOrProcessed os order s0 (k + 1) =
+        iterate l .inSchemaOrProcessed os order (runFrom l .inSchemaOrProcessed os order s0 k) (k + 1) := rfl
     rw [erun]
-    cases he : (run l .inSchemaOrProcessed os order k).exited with
+    cases he : (runFrom l .inSchemaOrProcessed os order s0 k).exited with
     | true => rw [iterate_exited _ _ _ _ _ _ he]; exact ih
     | false =>
-      have g := sweep_good os order (resetUnknown (run l .inSchemaOrProcessed os order k).st) (resetUnknown_good _ ih.1)
+      have g := sweep_good os order hr.own (resetUnknown (runFrom l .inSchemaOrProcessed os order s0 k).st) (resetUnknown_good _ ih.1) ih.2.1
       rcases hl with rfl | rfl
       · rw [iterate_settle _ _ _ _ _ he]
-        exact ⟨g, fun hx => settled_of_unknown_zero os order hnd _ ih.1 (by simpa using hx)⟩
-      · by_cases hc : 0 < (sweep .inSchemaOrProcessed os order (resetUnknown (run .untilSettledOrStalled .inSchemaOrProcessed os order k).st)).unknown ∧
-            (sweep .inSchemaOrProcessed os order (resetUnknown (run .untilSettledOrStalled .inSchemaOrProcessed os order k).st)).unknown = (run .untilSettledOrStalled .inSchemaOrProcessed os order k).last
+        exact ⟨g.1, g.2, fun hx => settled_of_unknown_zero os order hr.nodup hr.own _ ih.1 ih.2.1 (by simpa using hx)⟩
+      · by_cases hc : 0 < (sweep .inSchemaOrProcessed os order (resetUnknown (runFrom .untilSettledOrStalled .inSchemaOrProcessed os order s0 k).st)).unknown ∧
+            (sweep .inSchemaOrProcessed os order (resetUnknown (runFrom .untilSettledOrStalled .inSchemaOrProcessed os order s0 k).st)).unknown = (runFrom .untilSettledOrStalled .inSchemaOrProcessed os order s0 k).last
         · rw [iterate_stall _ _ _ _ _ he hc]
-          exact ⟨markRemaining_good order _ g, fun _ => markRemaining_settled order _⟩
+          exact ⟨markRemaining_good order _ g.1, markRemaining_fdone os order _ g.2, fun _ => markRemaining_settled order _⟩
         · rw [iterate_nostall _ _ _ _ _ he hc]
-          exact ⟨g, fun hx => settled_of_unknown_zero os order hnd _ ih.1 (by simpa using hx)⟩
+          exact ⟨g.1, g.2, fun hx => settled_of_unknown_zero os order hr.nodup hr.own _ ih.1 ih.2.1 (by simpa using hx)⟩
 
 /-- while the stall-detecting loop runs, `lastunknowncnt` is the number of NOTKNOWN objects, and that number has gone down
     by at least one per completed iteration -/
-theorem run_stalled_progress (os order : List Obj) (hnd : (order.map (·.name)).Nodup) (k : Nat) :
-    (run .untilSettledOrStalled .inSchemaOrProcessed os order (k + 1)).exited = false →
-    (run .untilSettledOrStalled .inSchemaOrProcessed os order (k + 1)).last =
-        cnt order (run .untilSettledOrStalled .inSchemaOrProcessed os order (k + 1)).st.marks ∧
-    (cnt order (run .untilSettledOrStalled .inSchemaOrProcessed os order (k + 1)).st.marks : Int) + k ≤ order.length := by
+theorem run_stalled_progress (os order : List Obj) (s0 : St) (hr : Ready os order s0) (k : Nat) :
+    (runFrom .untilSettledOrStalled .inSchemaOrProcessed os order s0 (k + 1)).exited = false →
+    (runFrom .untilSettledOrStalled .inSchemaOrProcessed os order s0 (k + 1)).last =
+        cnt order (runFrom .untilSettledOrStalled .inSchemaOrProcessed os order s0 (k + 1)).st.marks ∧
+    (cnt order (runFrom .untilSettledOrStalled .inSchemaOrProcessed os order s0 (k + 1)).st.marks : Int) + k ≤ order.length := by
   induction k with
   | zero =>
     intro _
-    have he : (run .untilSettledOrStalled .inSchemaOrProcessed os order 0).exited = false := rfl
-    have g0 : Good (run .untilSettledOrStalled .inSchemaOrProcessed os order 0).st := ⟨fun k => by simp [run, initial], rfl⟩
-    obtain ⟨_, hu, _⟩ := sweep_from_zero os order hnd _ g0
-    have hle : cnt order (sweep .inSchemaOrProcessed os order (resetUnknown (run .untilSettledOrStalled .inSchemaOrProcessed os order 0).st)).marks ≤ order.length :=
+    have he : (runFrom .untilSettledOrStalled .inSchemaOrProcessed os order s0 0).exited = false := rfl
+    obtain ⟨_, _, hu, _⟩ := sweep_from_zero os order hr.nodup hr.own (runFrom .untilSettledOrStalled .inSchemaOrProcessed os order s0 0).st hr.good hr.fdone
+    have hle : cnt order (sweep .inSchemaOrProcessed os order (resetUnknown (runFrom .untilSettledOrStalled .inSchemaOrProcessed os order s0 0).st)).marks ≤ order.length :=
       List.countP_le_length
-    have hc : ¬ (0 < (sweep .inSchemaOrProcessed os order (resetUnknown (run .untilSettledOrStalled .inSchemaOrProcessed os order 0).st)).unknown ∧
-        (sweep .inSchemaOrProcessed os order (resetUnknown (run .untilSettledOrStalled .inSchemaOrProcessed os order 0).st)).unknown = (run .untilSettledOrStalled .inSchemaOrProcessed os order 0).last) := by
+    have hc : ¬ (0 < (sweep .inSchemaOrProcessed os order (resetUnknown (runFrom .untilSettledOrStalled .inSchemaOrProcessed os order s0 0).st)).unknown ∧
+        (sweep .inSchemaOrProcessed os order (resetUnknown (runFrom .untilSettledOrStalled .inSchemaOrProcessed os order s0 0).st)).unknown = (runFrom .untilSettledOrStalled .inSchemaOrProcessed os order s0 0).last) := by
       intro ⟨h1, h2⟩
-      have : (run .untilSettledOrStalled .inSchemaOrProcessed os order 0).last = -1 := rfl
+      have : (runFrom .untilSettledOrStalled .inSchemaOrProcessed os order s0 0).last = -1 := rfl
       omega
-    have e : run .untilSettledOrStalled .inSchemaOrProcessed os order (0 + 1) = _ := iterate_nostall _ _ _ _ 1 he hc
+    have e : runFrom .untilSettledOrStalled .inSchemaOrProcessed os order s0 (0 + 1) = _ := iterate_nostall _ _ _ _ 1 he hc
     rw [e]
     exact ⟨hu, by simp only; omega⟩
   | succ k ih =>
     intro hne
-    have hprev : (run .untilSettledOrStalled .inSchemaOrProcessed os order (k + 1)).exited = false := by
-      cases hp : (run .untilSettledOrStalled .inSchemaOrProcessed os order (k + 1)).exited with
+    have hprev : (runFrom .untilSettledOrStalled .inSchemaOrProcessed os order s0 (k + 1)).exited = false := by
+      cases hp : (runFrom .untilSettledOrStalled .inSchemaOrProcessed os order s0 (k + 1)).exited with
       | false => rfl
       | true =>
-        have e : run .untilSettledOrStalled .inSchemaOrProcessed os order (k + 1 + 1) = _ := iterate_exited _ _ _ _ _ (k + 1 + 1) hp
+        have e : runFrom .untilSettledOrStalled .inSchemaOrProcessed os order s0 (k + 1 + 1) = _ := iterate_exited _ _ _ _ _ (k + 1 + 1) hp
         rw [e, hp] at hne; exact absurd hne (by decide)
     have ⟨hlast, hbound⟩ := ih hprev
-    have g := (run_inv .untilSettledOrStalled (Or.inr rfl) os order hnd (k + 1)).1
-    obtain ⟨_, hu, hback⟩ := sweep_from_zero os order hnd _ g
-    have hmono : cnt order (sweep .inSchemaOrProcessed os order (resetUnknown (run .untilSettledOrStalled .inSchemaOrProcessed os order (k + 1)).st)).marks
-        ≤ cnt order (run .untilSettledOrStalled .inSchemaOrProcessed os order (k + 1)).st.marks := by
+    have g := run_inv .untilSettledOrStalled (Or.inr rfl) os order s0 hr (k + 1)
+    obtain ⟨_, _, hu, hback⟩ := sweep_from_zero os order hr.nodup hr.own _ g.1 g.2.1
+    have hmono : cnt order (sweep .inSchemaOrProcessed os order (resetUnknown (runFrom .untilSettledOrStalled .inSchemaOrProcessed os order s0 (k + 1)).st)).marks
+        ≤ cnt order (runFrom .untilSettledOrStalled .inSchemaOrProcessed os order s0 (k + 1)).st.marks := by
       unfold cnt
       apply List.countP_mono_left
       intro o ho hm
       simp only [decide_eq_true_eq] at hm ⊢
       exact hback o ho hm
-    by_cases hc : 0 < (sweep .inSchemaOrProcessed os order (resetUnknown (run .untilSettledOrStalled .inSchemaOrProcessed os order (k + 1)).st)).unknown ∧
-        (sweep .inSchemaOrProcessed os order (resetUnknown (run .untilSettledOrStalled .inSchemaOrProcessed os order (k + 1)).st)).unknown = (run .untilSettledOrStalled .inSchemaOrProcessed os order (k + 1)).last
-    · have e : run .untilSettledOrStalled .inSchemaOrProcessed os order (k + 1 + 1) = _ := iterate_stall _ _ _ _ (k + 1 + 1) hprev hc
+    by_cases hc : 0 < (sweep .inSchemaOrProcessed os order (resetUnknown (runFrom .untilSettledOrStalled .inSchemaOrProcessed os order s0 (k + 1)).st)).unknown ∧
+        (sweep .inSchemaOrProcessed os order (resetUnknown (runFrom .untilSettledOrStalled .inSchemaOrProcessed os order s0 (k + 1)).st)).unknown = (runFrom .untilSettledOrStalled .inSchemaOrProcessed os order s0 (k + 1)).last
+    · have e : runFrom .untilSettledOrStalled .inSchemaOrProcessed os order s0 (k + 1 + 1) = _ := iterate_stall _ _ _ _ (k + 1 + 1) hprev hc
       rw [e] at hne
       exact absurd hne (by simp)
-    · have e : run .untilSettledOrStalled .inSchemaOrProcessed os order (k + 1 + 1) = _ := iterate_nostall _ _ _ _ (k + 1 + 1) hprev hc
+    · have e : runFrom .untilSettledOrStalled .inSchemaOrProcessed os order s0 (k + 1 + 1) = _ := iterate_nostall _ _ _ _ (k + 1 + 1) hprev hc
       rw [e] at hne ⊢
       simp only [decide_eq_false_iff_not, Int.not_le] at hne
       refine ⟨hu, ?_⟩
-      have hlt : (sweep .inSchemaOrProcessed os order (resetUnknown (run .untilSettledOrStalled .inSchemaOrProcessed os order (k + 1)).st)).unknown
-          ≠ (run .untilSettledOrStalled .inSchemaOrProcessed os order (k + 1)).last := fun e => hc ⟨hne, e⟩
+      have hlt : (sweep .inSchemaOrProcessed os order (resetUnknown (runFrom .untilSettledOrStalled .inSchemaOrProcessed os order s0 (k + 1)).st)).unknown
+          ≠ (runFrom .untilSettledOrStalled .inSchemaOrProcessed os order s0 (k + 1)).last := fun e => hc ⟨hne, e⟩
       simp only
       omega
 
 /-- **Termination** of the stall-detecting loop: with `n` objects it has been left after at most `n + 2` iterations -/
-theorem run_stalled_terminates (os order : List Obj) (hnd : (order.map (·.name)).Nodup) :
-    (run .untilSettledOrStalled .inSchemaOrProcessed os order (order.length + 2)).exited = true := by
-  cases h : (run .untilSettledOrStalled .inSchemaOrProcessed os order (order.length + 1 + 1)).exited with
+theorem run_stalled_terminates (os order : List Obj) (s0 : St) (hr : Ready os order s0) :
+    (runFrom .untilSettledOrStalled .inSchemaOrProcessed os order s0 (order.length + 2)).exited = true := by
+  cases h : (runFrom .untilSettledOrStalled .inSchemaOrProcessed os order s0 (order.length + 1 + 1)).exited with
   | true => rfl
   | false =>
-    have := (run_stalled_progress os order hnd (order.length + 1) h).2
+    have := (run_stalled_progress os order s0 hr (order.length + 1) h).2
     omega
+
+/-- a self-contained schema (no object is foreign), everything NOTKNOWN: ready -/
+theorem ready_initial (os order : List Obj) (hnd : (order.map (·.name)).Nodup) (hnf : ∀ n, isForeign os n = false) :
+    Ready os order initial :=
+  ⟨hnd, fun o _ => hnf o.name, ⟨fun k => by simp [initial], rfl⟩, fun n hn => by rw [hnf n] at hn; exact absurd hn (by decide)⟩
 
 end StepModel.GenFiles.Pass
